@@ -1,0 +1,14 @@
+//go:build verif
+
+package dicescript
+
+// Read-only accessors and test-only setters used by the verification harness in /verif.
+// Compiled only with `-tags verif`; nothing here is referenced by the package itself.
+
+import "golang.org/x/exp/rand"
+
+// VerifGlobalRandSource exposes the package-level generator (used when Context.RandSrc == nil).
+func VerifGlobalRandSource() *rand.PCGSource { return randSource }
+
+// VerifRoll64 exposes the unexported 64-bit roll core.
+func VerifRoll64(src *rand.PCGSource, dicePoints int64) int64 { return _roll64(src, dicePoints, 0) }
